@@ -105,6 +105,8 @@ fn main() {
             let out = arg(&args, "--out").expect("--out");
             let profile = arg(&args, "--profile").unwrap_or_else(|| "chk".into());
             let data = std::fs::read(&file).expect("read input");
+            // decode exactly like the fuzz targets do
+            fcverif::spec::LIGHT_GENERATORS.store(true, std::sync::atomic::Ordering::Relaxed);
             let mut viols: Vec<Value> = Vec::new();
             if let Err(v) = fcverif::fuzz_entry::run_target(&target, &data, true) {
                 viols.push(json!({
